@@ -41,12 +41,14 @@ def val_text(v):
     return v
 
 
-def render_c(items, seed=0, fortran=False, uid="x", plain=False):
+def render_c(items, seed=0, fortran=False, uid="x", plain=False, drop=()):
     """
     Returns (text, lines_of_item) where lines_of_item[i] (0-based item index) is the list of
     physical line numbers (1-based) that the item contributes as counted lines.
     Decorations (blank lines, comment-only lines, trailing comments, continuation lines,
     indentation) vary with `seed` and must not change what is counted.
+    Code items whose index is in `drop` are rendered as nothing countable (no line, a blank line or
+    a comment): directives then follow each other directly, and a file may begin / end with one.
     """
     rnd = random.Random(seed)
     out = []
@@ -79,6 +81,11 @@ def render_c(items, seed=0, fortran=False, uid="x", plain=False):
             out.append(cmt_full)
         if k == "code":
             ncode += 1
+            if i in drop:
+                if rnd.random() < 0.5:
+                    out.append(rnd.choice(["", cmt_full]))
+                lines_of.append([])
+                continue
             if fortran:
                 v = rnd.choice([f"{uid}{ncode} = {ncode}", f"call f({uid}{ncode})", f"{uid}{ncode} = 'a!b' // \"c&d\""])
                 if not plain and rnd.random() < 0.25:
